@@ -55,6 +55,19 @@ def check_frame(I, o, attr, name):
     I.eng.oblige(f"{name}/frame: writes exactly its own attribute ({attr})", all(w == attr for w in written) and len(written) >= 1, kind="frame")
 
 
+def check_model_untouched(I, written_attr, name):
+    """C18: computing never changes the physical value of anything held by the model except the attribute being updated"""
+    for e, snap in I.eng.run.cache.get("model_values", []):
+        if e.kind == "eq":
+            if e.value.phys is snap: continue
+            I.eng.oblige(f"{name}/frame: {e.label.text} keeps its physical value", e.value.phys == snap, kind="frame")
+        else:
+            v = e.value.vec
+            if v is snap: continue
+            I.eng.oblige(f"{name}/frame: {e.label.text} keeps its index", v.inidx(TT) == snap.inidx(TT), kind="frame")
+            I.eng.oblige(f"{name}/frame: {e.label.text} keeps its physical values", z3.Implies(snap.inidx(TT), v.val(TT) == snap.val(TT)), kind="frame")
+
+
 def check_reads(I, world, cname, attr, name):
     """C18: an update rule only reads inputs, earlier calculated attributes of the same object, or calculated
     attributes of classes strictly earlier in the canonical computation order"""
@@ -136,6 +149,7 @@ def verify_update(world, units, spec: M.Spec, concrete_cls=None, engine_kw=None,
             elif isinstance(w, tuple) and w[0] == "q": equiv_q(I, res, w[1], w[2], qual)
             elif w is None: pass
             else: raise Unsupported(f"spec result {type(w).__name__}")
+            check_model_untouched(I, spec.attr, qual)
             lit = world.schema_lookup(W.UNIT_INV, cname, spec.attr)
             if lit is not None:
                 r2 = I.resolve(res) if isinstance(res, ExplU) else res
